@@ -1,7 +1,7 @@
 (* C09/Properties.v -- pinned statements of property C09. *)
 From Sophia.Common Require Import Prelude.
 From Sophia.C09 Require Import Regex Rfc3987 Resolve Model AtomsProofs Proofs.
-From Sophia.C09 Require Lang EquivIri EquivIrel.
+From Sophia.C09 Require Lang EquivIri EquivIrel Classify.
 
 (* ===== part (1): a string is accepted iff it matches the RFC 3987 grammar ===== *)
 (* the regenerated IRI_REGEX_SRC / IRELATIVE_REF_REGEX_SRC accept exactly the words of the rules IRI /
@@ -16,6 +16,11 @@ Check (iri_new_spec : forall s, iri_new_ok s = matchb IRI s).
 Check (iriref_new_spec : forall s, iriref_new_ok s = matchb IRI_reference s).
 Check (namespace_get_spec : forall ns suffix,
   namespace_get_ok ns suffix = matchb IRI_reference ns && matchb IRI_reference (ns ++ suffix)).
+(* classification: the two rules are disjoint, so an accepted reference is absolute xor relative *)
+Check (Classify.iri_irelative_ref_disjoint : forall w, matchb IRI w = true -> matchb irelative_ref w = false).
+Check (absolute_relative_exclusive : forall s, is_absolute_iri_ref s = true -> is_relative_iri_ref s = false).
+Check (valid_iff_absolute_xor_relative : forall s,
+  is_valid_iri_ref s = xorb (is_absolute_iri_ref s) (is_relative_iri_ref s)).
 (* the executable matcher decides membership in the language denoted by a regex (RelationAlgebra's
    model of languages: 0, 1, union, concatenation, Kleene star; leaves = one-letter words of a class) *)
 Check (Lang.matchb_spec : forall r w, matchb r w = true <-> Lang.langc r w).
@@ -63,6 +68,9 @@ Print Assumptions is_valid_iri_ref_spec.
 Print Assumptions iri_new_spec.
 Print Assumptions iriref_new_spec.
 Print Assumptions namespace_get_spec.
+Print Assumptions Classify.iri_irelative_ref_disjoint.
+Print Assumptions absolute_relative_exclusive.
+Print Assumptions valid_iff_absolute_xor_relative.
 Print Assumptions Lang.matchb_spec.
 Print Assumptions Lang.abstract_sound.
 Print Assumptions Lang.ka_to_matchb.
